@@ -357,8 +357,9 @@ pub enum ErrSpec {
 pub enum PEv {
     Handler { id: usize, args: Vec<Want> },
     Error(ErrSpec),
-    /// exact response bytes (terminating newline included), followed by a flush
-    Response(Vec<u8>),
+    /// a response: the value and its type (judged by the decoder) and its canonical bytes with the
+    /// terminating newline (accepted without decoding); followed by a flush
+    Response { ty: RetTy, val: RVal, canonical: Vec<u8> },
     /// some non-empty, newline-terminated response (SYSTem:VERSion?: the value is not specified)
     AnyResponse,
     /// response of SYSTem:ERRor[:NEXT]? / COUNt?, computed from the queue model while matching
@@ -469,7 +470,11 @@ pub fn predict(model: &Model, msgs: &[Message], kinds: Option<&[Vec<UnitKind>]>,
                                 rval::encode(&d.ret, &env.rets[id], &mut bytes)
                                     .expect("response type without canonical encoding in a predicted message");
                                 bytes.push(b'\n');
-                                out.push(PEv::Response(bytes));
+                                out.push(PEv::Response {
+                                    ty: d.ret.clone(),
+                                    val: env.rets[id].clone(),
+                                    canonical: bytes,
+                                });
                             }
                         }
                     }
@@ -710,15 +715,27 @@ fn rec_inner(
                 }
                 pi += 1;
             }
-            PEv::Response(_) | PEv::ErrNext | PEv::ErrCount => {
-                let bytes = match &pred[pi] {
-                    PEv::Response(b) => b.clone(),
-                    PEv::ErrNext => q.next_response(),
-                    _ => q.count_response(),
+            PEv::Response { .. } | PEv::ErrNext | PEv::ErrCount => {
+                let (ty, val, canonical): (RetTy, RVal, Vec<u8>) = match &pred[pi] {
+                    PEv::Response { ty, val, canonical } => (ty.clone(), val.clone(), canonical.clone()),
+                    PEv::ErrNext => {
+                        let (n, text) = q.q.front().cloned().unwrap_or((0, String::new()));
+                        (
+                            RetTy::Tup(vec![RetTy::Int(Ty::I16), RetTy::Str]),
+                            RVal::List(vec![RVal::Int(n as i128), RVal::Str(text)]),
+                            q.next_response(),
+                        )
+                    }
+                    _ => (RetTy::Int(Ty::Usize), RVal::Int(q.q.len() as i128), q.count_response()),
                 };
                 if cfg.responses_in_log {
                     match obs.get(oi) {
-                        Some(Item::R(b)) if *b == bytes => {
+                        Some(Item::R(b))
+                            if *b == canonical
+                                || (b.last() == Some(&b'\n')
+                                    && crate::decode::check_response(&ty, &val, &b[..b.len() - 1]).is_ok()) =>
+                        {
+                            out.extend_from_slice(b);
                             oi += 1;
                         }
                         other => {
@@ -727,7 +744,7 @@ fn rec_inner(
                                 oi,
                                 format!(
                                     "expected response '{}' then flush, observed {:?}",
-                                    crate::runner::esc(&bytes),
+                                    crate::runner::esc(&canonical),
                                     other
                                 ),
                             );
@@ -735,7 +752,33 @@ fn rec_inner(
                         }
                     }
                 }
-                out.extend_from_slice(&bytes);
+                else if let Some(observed) = &cfg.output {
+                    // concatenated output: the response must come next, canonical or decodable
+                    let rest = &observed[out.len().min(observed.len())..];
+                    if rest.starts_with(&canonical) {
+                        out.extend_from_slice(&canonical);
+                    }
+                    else {
+                        match crate::decode::decode_prefix(&ty, &val, rest) {
+                            Ok(n) if rest.get(n) == Some(&b'\n') => out.extend_from_slice(&rest[..=n]),
+                            _ => {
+                                note(
+                                    best,
+                                    oi,
+                                    format!(
+                                        "output does not continue with the response '{}': '{}'",
+                                        crate::runner::esc(&canonical),
+                                        crate::runner::esc(&rest[..rest.len().min(80)])
+                                    ),
+                                );
+                                return false;
+                            }
+                        }
+                    }
+                }
+                else {
+                    out.extend_from_slice(&canonical);
+                }
                 pi += 1;
             }
         }
